@@ -70,7 +70,7 @@ func main() {
 			os.Exit(2)
 		}
 		c := core.NewCollector(prop, part, *tier, *seed)
-		x := &checks.Ctx{Batch: *batch, Journal: core.OpenJournal(*journal)}
+		x := &checks.Ctx{Batch: *batch, Journal: core.OpenJournal(*journal), Out: *out}
 		w(c, x)
 		if *out != "" {
 			if err := c.WriteTo(*out); err != nil {
